@@ -244,6 +244,8 @@ def main(argv=None):
               json.dumps({k: counters[k] for k in sorted(counters)[:14]})))
 
     if m["n_violations"]:
+        if inconclusive:
+            print("(also inconclusive: %s)" % " | ".join(inconclusive)[:3000])
         return 1
     if inconclusive:
         print("INCONCLUSIVE property=%s reason=%s" % (pid, " | ".join(inconclusive)[:3000]))
